@@ -95,6 +95,7 @@ type Oblig struct {
 	Output  string
 	Query   string
 	Canary  bool // must be refuted (vacuity guard)
+	Expected bool // listed in known_findings.jsonl as a recorded defect
 	Anc     map[int]bool // root-function blocks whose lines are relevant (nil = all)
 	Parts   []obPart     // when set, the obligation is the conjunction of these sub-goals
 	Values  []string // terms whose model values are requested
@@ -585,7 +586,15 @@ func (x *Exec) oblige(kind, name string, hyp, goal Term, src string, p token.Pos
 }
 
 func (x *Exec) safe(kind, what string, cond Term, p token.Pos) {
-	if x.c == nil || !x.c.NoPanic || x.discovering {
+	if x.discovering {
+		return
+	}
+	if x.c == nil || !x.c.NoPanic {
+		// no safety obligation requested: execution continues past this point only
+		// if the operation did not panic (partial correctness)
+		if cond != "true" {
+			x.smt.assume(implies(x.reach, cond))
+		}
 		return
 	}
 	if cond == "true" {
